@@ -124,3 +124,7 @@ SHARED_BORROW_ADTS = {
     "Range", "Copied", "Cloned", "Enumerate", "Map", "Filter", "FilterMap", "FlatMap", "Chain", "Zip", "Skip",
     "StepBy", "Rev", "Take", "Peekable", "Arguments", "Argument", "Split", "Chars", "Bytes", "Cow",
 }
+
+
+# replace(p, v) / take(p): return the old value of *p and overwrite it (modelled as a load followed by a store)
+MEM_REPLACE = {"core::mem::replace", "core::mem::take"}
